@@ -1,6 +1,6 @@
 """C15 — the max tracker: structural clauses only (accessor shapes, the update step, slots only decrease, reset == new)."""
 from .. import hirq, nf
-from ..rulelib import tree_of, user_nodes, writes_to_self, def_exprs, loop_exits
+from ..rulelib import tree_of, user_nodes, writes_to_self, def_exprs, loop_exits, resolver_of
 from . import C13
 
 MT = "maxvaluetrack::MaxValueTracker::<V>::"
@@ -38,56 +38,67 @@ def tree_step(ctx, facts, rule="TREE-STEP"):
         ctx.violation(rule, fid, "cannot-establish: loop structure", where, "expected exactly one propagation loop, found %d" % len(loops))
         return
     loop = loops[0]
-    D = lambda v: [nf.nf(e, True) for e in def_exprs(fn, v)]
+    R = resolver_of(fn)
+    D = lambda v: [nf.nf(e, True, res=R) for e in def_exprs(fn, v)]
     problems = []
-    # 1 the only store
+    P_K = hirq.show_pat(fn["params"][1]["pat"])
+    P_V = hirq.show_pat(fn["params"][2]["pat"])
+    # 1 the only store: values[K] = V, K and V the walk variables
     ws = writes_to_self(fn)
-    if len(ws) != 1 or nf.nf(ws[0][0], True) != "self.values[current_k] = current_value" or not t.contains(loop, ws[0][0]):
-        problems.append(("store", "the only store must be `self.values[current_k] = current_value` inside the loop; found %s" % [nf.nf(w[0], True)[:50] for w in ws]))
-    else:
-        wc = nf.all_conditions(t, ws[0][0], stop=None)
-        if [c for c in wc if c != ("truth", "more", True)]:
-            problems.append(("store", "the store is conditional on %s" % wc))
-    # 2 indices
-    if D("pidx") not in (["((current_k / 2) + self.m)"], ["(self.m + (current_k / 2))"], ["((current_k >> 1) + self.m)"]):
-        problems.append(("parent index", "pidx = %s, expected self.m + current_k / 2" % D("pidx")))
-    if D("siblidx") not in (["(1 ^ current_k)"], ["(current_k ^ 1)"]):
-        problems.append(("sibling index", "siblidx = %s, expected current_k ^ 1" % D("siblidx")))
+    K = V = MORE = None
+    if len(ws) == 1 and ws[0][0]["k"] == "Assign" and ws[0][1] == "values" and t.contains(loop, ws[0][0]):
+        K, V = nf.nf(ws[0][2][0], True), nf.nf(ws[0][0]["r"], True)
+    import re as _re
+    if K is None or not _re.match(r"^\w+$", K) or not _re.match(r"^\w+$", V):
+        ctx.violation(rule, fid, "store", where, "the only store must be `self.values[<walk index>] = <carried value>` inside the loop; found %s" % [nf.nf(w[0], True)[:50] for w in ws])
+        return
+    wc = nf.all_conditions(t, ws[0][0], stop=None)
+    guards = [c for c in wc if c[0] == "truth" and c[2] is True and _re.match(r"^\w+$", c[1])]
+    MORE = guards[0][1] if guards else None
+    if MORE is None or [c for c in wc if c != ("truth", MORE, True)]:
+        problems.append(("store", "the store is conditional on %s" % wc))
+    PARENT = {"((%s / 2) + self.m)" % K, "(self.m + (%s / 2))" % K, "((%s >> 1) + self.m)" % K}
+    SIB = {"self.values[(1 ^ %s)]" % K, "self.values[(%s ^ 1)]" % K}
+    # 2 walk: K = k, then K = parent(K)
+    dk = D(K)
+    if not (len(dk) == 2 and dk[0] == P_K and dk[1] in PARENT):
+        problems.append(("walk", "the walk index is defined by %s, expected the slot and then self.m + index / 2" % dk))
     # 3 value carried upward = max(current, sibling)
-    if D("current_value") != ["value", "self.values[siblidx]"]:
-        problems.append(("carried value", "current_value is defined by %s, expected the offered value and then self.values[siblidx]" % D("current_value")))
+    dv = D(V)
+    if not (len(dv) == 2 and dv[0] == P_V and dv[1] in SIB):
+        problems.append(("carried value", "the carried value is defined by %s, expected the offered value and then the sibling's value self.values[index ^ 1]" % dv))
     else:
         for n in user_nodes(fn):
-            if n["k"] == "Assign" and nf.nf(n["l"]) == "current_value":
-                c = nf.all_conditions(t, n, stop=loop)
-                if ("cmp", "current_value", "<", "self.values[siblidx]") not in c and ("cmp", "current_value", "<=", "self.values[siblidx]") not in c:
-                    problems.append(("carried value", "current_value takes the sibling's value when %s, expected when current_value < sibling (max of the two children)" % c[:1]))
-    if D("current_k") != ["k", "pidx"]:
-        problems.append(("walk", "current_k is defined by %s, expected k and then pidx" % D("current_k")))
+            if n["k"] == "Assign" and nf.nf(n["l"]) == V:
+                c = nf.all_conditions(t, n, stop=loop, res=R)
+                if not any(x[0] == "cmp" and x[1] == V and x[2] in ("<", "<=") and x[3] in SIB for x in c):
+                    problems.append(("carried value", "the carried value takes the sibling's value when %s, expected when it is smaller than the sibling (max of the two children)" % nf.all_conditions(t, n, stop=loop)[:1]))
     # 4 start: only if strictly smaller than the slot
-    mores = [(nf.nf(n["r"]), nf.all_conditions(t, n, stop=loop if t.contains(loop, n) else None)) for n in user_nodes(fn) if n["k"] == "Assign" and nf.nf(n["l"]) == "more"]
-    init = [nf.nf(e) for e in def_exprs(fn, "more")][:1]
+    mores = [(nf.nf(n["r"]), nf.all_conditions(t, n, stop=loop if t.contains(loop, n) else None, res=R)) for n in user_nodes(fn) if n["k"] == "Assign" and nf.nf(n["l"]) == MORE]
+    init = [nf.nf(e) for e in def_exprs(fn, MORE)][:1] if MORE else []
     if init != ["false"]:
-        problems.append(("start", "`more` must start false"))
+        problems.append(("start", "the walk flag must start false"))
     trues = [c for (v, c) in mores if v == "true"]
-    if len(trues) != 1 or trues[0][:1] != [("cmp", "current_value", "<", "self.values[current_k]")]:
+    if len(trues) != 1 or trues[0][:1] != [("cmp", V, "<", "self.values[%s]" % K)]:
         problems.append(("start", "the walk must start exactly when value < values[k] (strict: slots only decrease); found %s" % trues))
     falses = [c for (v, c) in mores if v == "false"]
     for c in falses:
-        if c[:1] not in ([("cmp", "self.values[current_k]", "<=", "current_value")], [("cmp", "self.values[current_k]", "<", "current_value")]):
+        if c[:1] not in ([("cmp", "self.values[%s]" % K, "<=", V)], [("cmp", "self.values[%s]" % K, "<", V)]):
             problems.append(("stop", "the walk stops when %s, expected when the carried value is not below the parent" % c[:1]))
     # 5 exits
     for (kind, node) in loop_exits(fn, loop):
-        c = nf.all_conditions(t, node, stop=loop)
-        c = [x for x in c if x != ("truth", "more", True)]
+        c = nf.all_conditions(t, node, stop=loop, res=R)
+        c = [x for x in c if x != ("truth", MORE, True)]
+        shown = nf.all_conditions(t, node, stop=loop)
         if kind == "guard":
-            if c != [("truth", "more", False)]:
-                problems.append(("exit", "loop guard is %s, expected `more`" % c))
+            if c != [("truth", MORE, False)]:
+                problems.append(("exit", "loop guard is %s, expected the walk flag" % shown))
         elif kind == "break":
-            root = c[:1] == [("cmp", "self.last_index", "<", "pidx")]
-            equal = set(c) == {("cmp", "self.values[pidx]", "<=", "self.values[siblidx]"), ("cmp", "self.values[pidx]", "<=", "self.values[current_k]")}
+            root = len(c) >= 1 and c[0][0] == "cmp" and c[0][1] == "self.last_index" and c[0][2] == "<" and c[0][3] in PARENT
+            equal = len(c) == 2 and all(x[0] == "cmp" and x[2] == "<=" and x[1] in {"self.values[%s]" % p_ for p_ in PARENT} for x in c) and \
+                {x[3] for x in c} in ({"self.values[%s]" % K} | {s_} for s_ in SIB)
             if not (root or equal):
-                problems.append(("exit", "the walk is abandoned when %s: only 'parent beyond the root' or 'parent equals both children' may end it early" % c[:2]))
+                problems.append(("exit", "the walk is abandoned when %s: only 'parent beyond the root' or 'parent equals both children' may end it early" % shown[:2]))
         else:
             problems.append(("exit", "the walk is left by %s" % kind))
     if problems:
@@ -99,9 +110,14 @@ def tree_step(ctx, facts, rule="TREE-STEP"):
 
 def layout(ctx, facts):
     fn = facts.fn(MT + "new")
-    li = [nf.nf(e, True) for e in def_exprs(fn, "last_index")]
-    vl = [nf.nf(e, True) for e in def_exprs(fn, "vlen")]
-    if li in (["((m << 1) - 2)"], ["((2 * m) - 2)"], ["((m * 2) - 2)"]) and vl in (["(1 + last_index)"], ["(last_index + 1)"]):
+    R = resolver_of(fn)
+    M = hirq.show_pat(fn["params"][0]["pat"])
+    fields = {f["name"]: f["e"] for x in hirq.walk(fn["hir"]) if x["k"] == "Struct" for f in x["fields"]}
+    li = [nf.nf(fields["last_index"], True, res=R)] if "last_index" in fields else []
+    vals = nf.nf(fields["values"], True, res=R) if "values" in fields else ""
+    vl = [vals]
+    LI = {"((%s << 1) - 2)" % M, "((2 * %s) - 2)" % M, "((%s * 2) - 2)" % M}
+    if li and li[0] in LI and any(("end:(1 + %s)}" % x) in vals or ("end:(%s + 1)}" % x) in vals for x in LI):
         ctx.ok("LAYOUT", MT + "new", "last_index = 2m - 2, 2m - 1 nodes", hirq.loc(fn))
     else:
         ctx.violation("LAYOUT", MT + "new", "node layout", hirq.loc(fn), "last_index = %s, vlen = %s; expected 2m-2 and last_index+1" % (li, vl))
